@@ -1,7 +1,7 @@
 (* C11 - normalize resolves "." and ".." lexically, idempotently, never above the root. *)
 From Coq Require Import List NArith Bool.
 Import ListNotations.
-From TP Require Import Core Path Unix Win Spec GenJoin WinSimple C11Proofs C11WinProofs.
+From TP Require Import Core Path Unix Win Spec GenJoin WinSimple C11Proofs C11WinProofs WinExtend C11WinPrefixed WinVerbJoin C11WinVerb.
 
 (* Unix, every byte string: the normalised path, read back, is the lexical fold (Spec.nfold) of the
    input's components: "." dropped, each ".." cancels the nearest preceding normal component and
@@ -48,9 +48,49 @@ Print Assumptions C11_windows_root_plain.
 (* the hypothesis on names is needed: a name that looks like a drive replaces the buffer when re-pushed *)
 Lemma C11_names_needed : w_normalize [97;92;99;58;100] = [99;58;100].        (* a\c:d -> c:d *)
 Proof. vm_compute. reflexivity. Qed.
-(* C11_windows_partial: for Windows paths with a prefix (drive, UNC, verbatim, device) the byte-level
-   re-push of the folded components is not proved equal to the fold; that part is decided by oracle_c11
-   on every explored well-formed path (fold, read-back, flags, idempotence, primary separator only). *)
+(* Windows, every path with a UNC, device-namespace or drive prefix followed by a non-empty rest, names without
+   drive look-alike (C11WinPrefixed.v, over WinExtend.v and WinTrunc.v): the same three statements -- the
+   normalised path reads back as the lexical fold (the prefix component at the bottom of the stack, which ".."
+   never removes), normalising again returns the same bytes, the prefix and a root after it are kept and no
+   "." or ".." is left *)
+Theorem C11_windows_fold_prefixed : forall (l : list N) (k : wprefix) (r : list N),
+  wprefix_grammar l = Some (k, r) -> k_verbatim k = false -> r <> [] -> Forall pn_comp (gcomps (wsep true) r) ->
+  wspec (w_normalize l) = nfold (wspec l) [].
+Proof. exact w_normalize_prefixed. Qed.
+Theorem C11_windows_idempotent_prefixed : forall (l : list N) (k : wprefix) (r : list N),
+  wprefix_grammar l = Some (k, r) -> k_verbatim k = false -> r <> [] -> Forall pn_comp (gcomps (wsep true) r) ->
+  w_normalize (w_normalize l) = w_normalize l.
+Proof. exact w_normalize_prefixed_idem. Qed.
+Theorem C11_windows_head_prefixed : forall (l : list N) (k : wprefix) (r : list N),
+  wprefix_grammar l = Some (k, r) -> k_verbatim k = false -> r <> [] -> Forall pn_comp (gcomps (wsep true) r) ->
+  exists p body, wspec l = WPrefix p k :: map WC (gcomps (wsep true) r) /\ wspec (w_normalize l) = WPrefix p k :: map WC body /\
+                 (g_rooted (wsep true) r = true -> exists t, body = Root :: t) /\
+                 Forall (fun c => c_is_current c = false /\ c_is_parent c = false) body.
+Proof. exact w_normalize_prefixed_head. Qed.
+Print Assumptions C11_windows_fold_prefixed.
+Print Assumptions C11_windows_idempotent_prefixed.
+Print Assumptions C11_windows_head_prefixed.
+Example C11_windows_prefixed_example :
+  wprefix_grammar [92;92;115;92;104;92;46;46;92;120] = Some (UNC [115] [104], [92;46;46;92;120])
+  /\ Forall pn_comp (gcomps (wsep true) [92;46;46;92;120]).
+Proof. split; [vm_compute; reflexivity|]. vm_compute. repeat constructor; discriminate. Qed.
+(* Windows, every path with a VERBATIM prefix followed by a root (C11WinVerb.v, over WinVerbJoin.v): the same --
+   the normalised path reads back as the lexical fold (under exactly \\?\ a "." is a component, which the fold
+   drops), and normalising again returns the same bytes.  Left out: the verbatim prefix named "UNC" (finding D17)
+   and the one with the empty name. *)
+Theorem C11_windows_verbatim : forall (l : list N) (k : wprefix) (r : list N),
+  wprefix_grammar l = Some (k, r) -> k_verbatim k = true -> k <> Verbatim [85; 78; 67] -> k <> Verbatim [] ->
+  sep_headed (s_wsep (s_norm l)) r -> Forall pn_comp (spec_comps (s_wsep (s_norm l)) (s_norm l) r) ->
+  wspec (w_normalize l) = nfold (wspec l) [] /\ w_normalize (w_normalize l) = w_normalize l.
+Proof. exact w_normalize_verbatim. Qed.
+Print Assumptions C11_windows_verbatim.
+Example C11_windows_verbatim_example :
+  wprefix_grammar [92;92;63;92;67;58;92;97;92;46;92;46;46;92;98] = Some (VerbatimDisk 67, [92;97;92;46;92;46;46;92;98])
+  /\ w_normalize [92;92;63;92;67;58;92;97;92;46;92;46;46;92;98] = [92;92;63;92;67;58;92;98].     (* \\?\C:\a\.\..\b *)
+Proof. vm_compute. split; reflexivity. Qed.
+(* C11_windows_partial: a bare prefix, the verbatim prefix named "UNC" or with the empty name, and a verbatim
+   prefix followed by a name without a root are decided by oracle_c11 on every explored well-formed path (fold,
+   read-back, flags, idempotence, primary separator only). *)
 
 Example C11_example :
   u_normalize [47;46;46;47;97;47;46;47;46;46;47;46;46;47;98] = [47;98]
